@@ -45,10 +45,12 @@ func (n *Extension) Negotiate(opt httphead.Option) (accept httphead.Option, err 
 	{
 		offer := n.params.ServerMaxWindowBits
 		want := want.ServerMaxWindowBits
-		if offer > want {
+		if offer.Defined() && (!want.Defined() || want > offer) {
 			// A server declines an extension negotiation offer
 			// with this parameter if the server doesn't support
-			// it.
+			// it. The response is our own configuration, so it is
+			// supported only if we are configured to use a window
+			// not larger than the requested one.
 			return accept, nil
 		}
 	}
